@@ -813,9 +813,19 @@ pub fn run_pairs(count: usize) -> Report {
     let mut rep = Report::new();
     let seed = seed_from_env();
     let mut rng = StdRng::seed_from_u64(seed.wrapping_mul(2477));
+    run_pairs_t::<f64>(count, &mut rng, &mut rep);
+    run_pairs_t::<f32>(count / 4, &mut rng, &mut rep);
+    rep
+}
+
+fn run_pairs_t<T: Sc>(count: usize, rng: &mut StdRng, rep: &mut Report) {
+    // pair tolerances: t8 (f64) / 1e-3 (f32) relative for seq-vs-par and weighted-vs-twin, looser for permutations
+    let t8 = if T::NAME == "f64" { 1e-8 } else { 1e-3 };
+    let t6 = if T::NAME == "f64" { 1e-6 } else { 1e-2 };
+    let t7 = if T::NAME == "f64" { 1e-7 } else { 1e-2 };
     for i in 0..count {
         // certified regime: fits converge, so that end results can be compared
-        let base = exp_run::<f64>(i, true, &mut rng);
+        let base = exp_run::<T>(i, true, rng);
         // ---- C11: sequential vs parallel, several pool sizes
         {
             let mut a = base.clone();
@@ -824,15 +834,15 @@ pub fn run_pairs(count: usize) -> Report {
             b.par = true;
             b.threads = [1, 2, 3, 4, 8, 16][i % 6];
             if let (Some(fa), Some(fb)) = (fit_facts(&a, false), fit_facts(&b, false)) {
-                let d = rel_close(&fa.params, &fb.params, 1e-8);
+                let d = rel_close(&fa.params, &fb.params, t8);
                 let dc = match (&fa.coeffs, &fb.coeffs) {
-                    (Some(x), Some(y)) => rel_close(x.as_slice(), y.as_slice(), 1e-8),
+                    (Some(x), Some(y)) => rel_close(x.as_slice(), y.as_slice(), t8),
                     (None, None) => 0.0,
                     _ => f64::INFINITY,
                 };
-                rep.check("C11", fa.ok == fb.ok && fa.term == fb.term && d <= 1.0 && dc <= 1.0, d.max(dc) * 1e-8, || {
+                rep.check("C11", fa.ok == fb.ok && fa.term == fb.term && d <= 1.0 && dc <= 1.0, d.max(dc) * t8, || {
                     json!({"what": "whole fit: parallel problem ends differently from the sequential one", "label": base.label, "threads": b.threads,
-                           "seq": [fa.ok, fa.term, fa.nfev], "par": [fb.ok, fb.term, fb.nfev], "dparams": d * 1e-8})
+                           "seq": [fa.ok, fa.term, fa.nfev], "par": [fb.ok, fb.term, fb.nfev], "dparams": d * t8})
                 });
                 if fa.nfev == fb.nfev && bits_eq(&fa.params, &fb.params) {
                     rep.count("c11_fit_bitwise_equal", 1);
@@ -846,7 +856,7 @@ pub fn run_pairs(count: usize) -> Report {
         let mut base = base;
         if let Some(w) = base.w.as_mut() {
             if i % 4 == 1 && w.len() > 8 {
-                w[3] = 0.0;
+                w[3] = T::zero();
                 w[7] = -w[7];
             }
         }
@@ -858,23 +868,23 @@ pub fn run_pairs(count: usize) -> Report {
             let fa = fit_facts(&base, true);
             let fb = fit_facts_scaled(&twin, &w, true);
             if let (Some(fa), Some(fb)) = (fa, fb) {
-                let d = rel_close(&fa.params, &fb.params, 1e-8);
+                let d = rel_close(&fa.params, &fb.params, t8);
                 let dc = match (&fa.coeffs, &fb.coeffs) {
-                    (Some(x), Some(y)) => rel_close(x.as_slice(), y.as_slice(), 1e-8),
+                    (Some(x), Some(y)) => rel_close(x.as_slice(), y.as_slice(), t8),
                     (None, None) => 0.0,
                     _ => f64::INFINITY,
                 };
                 let ds = match (&fa.chi2_cov, &fb.chi2_cov) {
-                    (Some((c1, v1)), Some((c2, v2))) => rel_close(&[*c1], &[*c2], 1e-8).max({
-                        let sc = v1.iter().fold(0.0f64, |m, v| m.max(v.abs()));
-                        v1.iter().zip(v2.iter()).fold(0.0f64, |m, (x, y)| m.max((x - y).abs() / sc.max(1e-300))) / 1e-7
+                    (Some((c1, v1)), Some((c2, v2))) => rel_close(&[*c1], &[*c2], t8).max({
+                        let sc = v1.iter().fold(0.0f64, |m, v| m.max(v.to64().abs()));
+                        v1.iter().zip(v2.iter()).fold(0.0f64, |m, (x, y)| m.max((x.to64() - y.to64()).abs() / sc.max(1e-300))) / t7
                     }),
                     (None, None) => 0.0,
                     _ => f64::INFINITY,
                 };
-                rep.check("C06", fa.ok == fb.ok && d <= 1.0 && dc <= 1.0 && ds <= 1.0, d.max(dc) * 1e-8, || {
+                rep.check("C06", fa.ok == fb.ok && d <= 1.0 && dc <= 1.0 && ds <= 1.0, d.max(dc) * t8, || {
                     json!({"what": "whole fit / statistics: weighted problem differs from its row-scaled unweighted twin", "label": base.label,
-                           "weighted": [fa.ok, fa.term, fa.nfev], "twin": [fb.ok, fb.term, fb.nfev], "dparams": d * 1e-8, "dcoeff": dc * 1e-8, "dstats": ds})
+                           "weighted": [fa.ok, fa.term, fa.nfev], "twin": [fb.ok, fb.term, fb.nfev], "dparams": d * t8, "dcoeff": dc * t8, "dstats": ds})
                 });
             }
         }
@@ -884,23 +894,22 @@ pub fn run_pairs(count: usize) -> Report {
             let mut perm = base.clone();
             perm.y = DMatrix::from_fn(base.y.nrows(), s, |r, c| base.y[(r, s - 1 - c)]);
             if let (Some(fa), Some(fb)) = (fit_facts(&base, false), fit_facts(&perm, false)) {
-                let d = rel_close(&fa.params, &fb.params, 1e-6);
+                let d = rel_close(&fa.params, &fb.params, t6);
                 let dc = match (&fa.coeffs, &fb.coeffs) {
                     (Some(x), Some(y)) => {
                         let yp = DMatrix::from_fn(y.nrows(), y.ncols(), |r, c| y[(r, s - 1 - c)]);
-                        rel_close(x.as_slice(), yp.as_slice(), 1e-6)
+                        rel_close(x.as_slice(), yp.as_slice(), t6)
                     }
                     (None, None) => 0.0,
                     _ => f64::INFINITY,
                 };
-                rep.check("C07", fa.ok == fb.ok && d <= 1.0 && dc <= 1.0, d.max(dc) * 1e-6, || {
-                    json!({"what": "fitted parameters / coefficients change under a permutation of the observation columns", "label": base.label, "dparams": d * 1e-6, "dcoeff": dc * 1e-6})
+                rep.check("C07", fa.ok == fb.ok && d <= 1.0 && dc <= 1.0, d.max(dc) * t6, || {
+                    json!({"what": "fitted parameters / coefficients change under a permutation of the observation columns", "label": base.label, "dparams": d * t6, "dcoeff": dc * t6})
                 });
             }
         }
         rep.count("pairs", 1);
     }
-    rep
 }
 
 /// fit of the row scaled twin: the model rows are multiplied by w
